@@ -282,6 +282,17 @@ def tasks(tier, seed):
                     ts.append({"kind": "algo", "label": "dev/" + lab, "cfg": cfg, "mode": "dev", "T": 100 if tier == "thorough" else 40,
                                "R": list(configs.R4), "base": "twopeak", "k": 1,
                                "max_exec": 800 if tier == "quick" else 20000})
+    # searches driven onto a face of the box until cells are a few ulps wide (every seed: not part of the rotated pool)
+    face_boxes = {"nd1": [[0.1, 0.7]], "nd9": [[0.1, 0.9]], "r512": [[-5.12, 5.12]], "c100": [[0.0, 100.0]]}
+    for algo, params in (("DOO", dict(n=150)), ("SOO", dict(n=150, h_max=150)), ("SequOOL", dict(n=1000))):
+        for part, K in configs.PART_VARIANTS:
+            for bname in sorted(face_boxes):
+                if algo == "SequOOL" and tier == "quick" and bname not in ("nd9", "r512"):
+                    continue
+                cfg = configs.cfg(algo, part, K, face_boxes[bname], **params)
+                for b in ("rise", "fall"):
+                    ts.append({"kind": "algo", "label": "face/%s/%s%s/%s/%s" % (algo, part, K or "", bname, b), "cfg": cfg, "mode": "dev",
+                               "T": params["n"], "R": list(configs.R4), "base": b, "k": 0, "cost": 2 if algo != "SequOOL" else 8})
     return ts
 
 
